@@ -54,7 +54,7 @@ Theorem life_steps_touch_live_cells_proved : forall cfg b i v s,
   /\ (forall s', destroy1 b i s = Ok tt s' -> in_live_block s b i)
   /\ (forall x s', read1 cfg b i s = Ok x s' -> in_live_block s b i)
   /\ (forall s', assign1 cfg b i v s = Ok tt s' -> in_live_block s b i)
-  /\ (c_trivial cfg = false -> forall s', mark_moved cfg b i s = Ok tt s' -> in_live_block s b i)
+  /\ (c_quiet cfg = false -> forall s', mark_moved cfg b i s = Ok tt s' -> in_live_block s b i)
   /\ (~ in_live_block s b i ->
         (exists e, construct1 b i v s = Err e /\ access_err e) /\ (exists e, destroy1 b i s = Err e /\ access_err e)
      /\ (exists e, read1 cfg b i s = Err e /\ access_err e) /\ (exists e, assign1 cfg b i v s = Err e /\ access_err e)).
